@@ -726,8 +726,9 @@ def run(ctx):
         ctx.require_count("C17.l-carriage-return-removed-before-the-continuation-test", 1)
     ctx.require_count("C17.k-lines-with-unknown-keywords-never-abort", 1)
     ctx.require_count("C17.j-index-parsed-strictly", 1)
-    rule_i_counts_validated(ctx, hall)
-    ctx.require_count("C17.i-counts-validated-before-resize", 8)
+    mu = ctx.ex.get(Request("src/buildblock/MultipleDataSetHeader.cxx", fn=["stir::MultipleDataSetHeader::.*"], files=["/repo/src/buildblock/MultipleDataSetHeader\\.cxx"]))
+    rule_i_counts_validated(ctx, hall + (uniq(mu.functions) if mu is not None else []))
+    ctx.require_count("C17.i-counts-validated-before-resize", 9)
     ctx.require_count("C17.a-registrable-types-handled", 5)
     ctx.require_count("C17.b-vectorised-index-validated", 2)
     ctx.require_count("C17.c-per-dataset-vectors", 3)
